@@ -4156,6 +4156,7 @@ func ruleCMapNotLineBased(c *eng.Ctx) {
 	const R = "R7.11-CMAP-NOT-LINE-BASED"
 	c.Rule(R, "the ToUnicode CMap parser never cuts a part of the CMap program into lines to read the lines one by one (strings.Split with \"\\n\", strings.Lines, bufio.Scanner on text that comes from the stream); what it may split is the output of a function of the package that has laid the entries out itself. A CMap is a PostScript token stream: CR or no line breaks at all, an array that starts on the line after its codes, or two entries on one line are the same program", 1, 1)
 	n := 0
+	laidOut := map[*ssa.Function]bool{}
 	for _, fn := range c.P.ModuleFuncs() {
 		if fn.Pkg == nil || fn.Blocks == nil {
 			continue
@@ -4186,6 +4187,43 @@ func ruleCMapNotLineBased(c *eng.Ctx) {
 				}
 			}
 			c.Check(own, R, fmt.Sprintf("%s#lines@%s", eng.FuncName(ci.Parent()), c.P.Pos(ci.Pos())), ci.Pos(), "the text that is split was laid out by the package", "a part of the CMap program is cut into lines and read line by line: the same mappings written without line breaks, with CR, or wrapped differently are read differently or not at all")
+			if own {
+				// the layouter decides where lines end: a piece of the program it copies as it is (a hex string may be
+				// wrapped over lines, white space inside <...> is not significant) would end the line in the middle of an entry
+				lay := eng.StaticCallee(args[0].(*ssa.Call))
+				if lay.Blocks != nil && !laidOut[lay] {
+					laidOut[lay] = true
+					for _, w := range eng.Calls(lay, true, func(name string, _ ssa.CallInstruction) bool {
+						return name == "strings.(*Builder).WriteString" || name == "bytes.(*Buffer).WriteString" || name == "bytes.(*Buffer).Write" || name == "builtin:append"
+					}) {
+						wargs := w.Common().Args
+						arg := wargs[len(wargs)-1]
+						raw, cleaned := false, false
+						for v := range eng.Slice(arg, func(*ssa.Call) bool { return true }) {
+							switch x := v.(type) {
+							case *ssa.Slice:
+								if _, isParam := x.X.(*ssa.Parameter); isParam {
+									raw = true
+								}
+							case *ssa.Call:
+								if cal := eng.StaticCallee(x); cal != nil {
+									switch eng.FuncName(cal) {
+									case "strings.Fields", "strings.ReplaceAll", "strings.Map", "strings.Replace", "strings.(*Replacer).Replace", "strings.FieldsFunc", "bytes.Fields":
+										cleaned = true
+									}
+									if eng.InModule(cal) && mentionsLineBreak(cal) {
+										cleaned = true
+									}
+								}
+							}
+						}
+						if !raw {
+							continue
+						}
+						c.Check(cleaned, R, fmt.Sprintf("%s#verbatim@%s", eng.FuncName(lay), c.P.Pos(w.Pos())), w.Pos(), "the piece of the program copied into the laid-out text has its white space removed first", "a piece of the CMap program is copied into the laid-out text as it is: a hex string wrapped over two lines (white space inside <...> is not significant) ends the line in the middle of an entry, and the entry is read wrongly or dropped")
+					}
+				}
+			}
 		}
 	}
 	if n == 0 {
